@@ -117,6 +117,15 @@ class LoopbackPopen:
             errbytes = b''
         elif fault[0] == 'truncate':         # report cut after fault[1] bytes
             errbytes = errbytes[:fault[1]]
+        elif fault[0] == 'keep_report_lines':   # child died after writing fault[1] complete lines of its report
+            lines = errbytes.splitlines(True)
+            k = 0
+            for i, ln in enumerate(lines):      # the report starts at the first 3-integer line
+                parts = ln.split()
+                if len(parts) == 3 and all(p.isdigit() for p in parts):
+                    k = i
+                    break
+            errbytes = b''.join(lines[:k + fault[1]])
         elif fault[0] == 'noise':            # noise lines before the report
             errbytes = fault[1] + errbytes
         rec['stderr'] = errbytes
